@@ -29,10 +29,12 @@ class HRun:
     __slots__ = ('violations', 'stats', 'log', 'n_ops')
 
 
-def _jobspec(name, forever):
+def _jobspec(name, forever, salt=0):
+    # a small seeded duration, so that the final run() has several waves
+    dur = (0.0, 0.0, 0.25, 0.5)[hash((salt, name)) % 4]
     return {"id": name, "kind": "job", "cls": "abstract", "critical": False,
-            "forever": forever, "script": [], "outcome": "ret", "cleanup": [],
-            "handler": []}
+            "forever": forever, "script": [["sleep", dur]] if dur else [],
+            "outcome": "ret", "cleanup": [], "handler": []}
 
 
 def _schedspec(name):
@@ -225,7 +227,8 @@ class Exec:
                 kw['required'] = self.build_arg(op['required'])
             if op['scheduler'] is not None:
                 kw['scheduler'] = self.objs[op['scheduler']]
-            self.objs[name] = SimJob(self.ctx, _jobspec(name, op['forever']),
+            self.objs[name] = SimJob(self.ctx, _jobspec(name, op['forever'],
+                                                         self.case['salt']),
                                      forever=op['forever'], critical=False,
                                      **kw)
         self.model.kind[name] = 'job'       # known to lib_state from now on
@@ -694,8 +697,25 @@ class Exec:
 
     # ---- run what was built (C19)
     def do_run(self, prop, idx, op):
-        if prop != 'C19':
+        if prop not in ('C19', 'C01', 'C02'):
             return
+        real_bad = self.bad
+
+        def bad(_prop, clause, site, msg, idx):
+            # C19 reports everything ("what was built is what is executed");
+            # C01 the ordering part, C02 the exactly-once / completeness part
+            if prop == 'C01' and clause != 'run:order':
+                return
+            if prop == 'C02' and clause == 'run:order':
+                return
+            real_bad(prop, clause, 'after-api-history', msg, idx)
+        self.bad = bad
+        try:
+            self._do_run(prop, idx, op)
+        finally:
+            self.bad = real_bad
+
+    def _do_run(self, prop, idx, op):
         sched, m = op['sched'], self.model
         if not m.closed(sched) or not m.acyclic(sched, True):
             return
@@ -734,7 +754,16 @@ class Exec:
         exits, enters = {}, {}
         for seq, _, kind, nid, payload in ctx.events[start:]:
             if kind in ('enter', 'run_begin'):
+                if nid in enters:
+                    self.bad('C19', 'run:entered-twice', '-',
+                             "{} entered twice".format(nid), idx)
+                    return
                 enters.setdefault(nid, seq)
+                if nid not in tree:
+                    self.bad('C19', 'run:extra-job-ran', '-',
+                             "{} is not (any more) in the scheduler tree of {} "
+                             "but was run".format(nid, sched), idx)
+                    return
             elif kind in ('exit', 'over') and payload != 'cancelled':
                 exits.setdefault(nid, seq)
 
